@@ -445,3 +445,116 @@ func TestC01_ConcatenationAliases(t *testing.T) {
 		return c01AliasCase{Long: string(b), K: k, Rest: rest, Digits: rapid.SampledFrom([]int{6, 6, 8, 10}).Draw(t, "digits"), Algo: rapid.IntRange(0, 2).Draw(t, "algo"), Order: rapid.IntRange(0, 1).Draw(t, "order")}
 	})
 }
+
+// ---------------------------------------------------------------------------
+// Shifted field boundaries (OCRA). Two inputs whose fields, written one after the other, are the same bytes — the last byte
+// of one field moved to the front of the next — are different inputs: one of them is usually inadmissible (a 7-byte counter),
+// the other admissible with a code of its own. A memo or coalescing key that joins the fields without their lengths (also
+// with a tag letter between them, when the moved byte IS that letter) takes one for the other.
+type c06ShiftCase struct {
+	Cfg   ref.OCRACfg `json:"cfg"`
+	Key   []byte      `json:"key"`
+	In    ref.OCRAIn  `json:"in"`    // admissible
+	Pair  int         `json:"pair"`  // which adjacent pair of selected fields
+	Tag   bool        `json:"tag"`   // the moved byte is the next field's tag letter (C Q P S T)
+	Order int         `json:"order"` // 0: the shifted (other) input first, 1: the admissible input first
+}
+
+func checkC06Shift(c c06ShiftCase) verdict {
+	fields := []*[]byte{&c.In.C, &c.In.Q, &c.In.P, &c.In.S, &c.In.T}
+	sel := []bool{c.Cfg.C, c.Cfg.Q, c.Cfg.P, c.Cfg.S, c.Cfg.T}
+	var idx []int
+	for i, s := range sel {
+		if s {
+			idx = append(idx, i)
+		}
+	}
+	if len(idx) < 2 {
+		return ok(false, "fewer-than-two-fields")
+	}
+	f, g := idx[c.Pair%(len(idx)-1)], idx[c.Pair%(len(idx)-1)+1]
+	a := ref.OCRAIn{C: append([]byte(nil), c.In.C...), Q: append([]byte(nil), c.In.Q...), P: append([]byte(nil), c.In.P...), S: append([]byte(nil), c.In.S...), T: append([]byte(nil), c.In.T...)}
+	af := []*[]byte{&a.C, &a.Q, &a.P, &a.S, &a.T}
+	if len(*af[f]) == 0 {
+		return ok(false, "empty-field")
+	}
+	if c.Tag {
+		(*af[f])[len(*af[f])-1] = "CQPST"[g]
+	}
+	if !ref.Admissible(c.Cfg, a) {
+		return ok(false, "harness-input-not-admissible")
+	}
+	b := ref.OCRAIn{C: append([]byte(nil), a.C...), Q: append([]byte(nil), a.Q...), P: append([]byte(nil), a.P...), S: append([]byte(nil), a.S...), T: append([]byte(nil), a.T...)}
+	bf := []*[]byte{&b.C, &b.Q, &b.P, &b.S, &b.T}
+	last := (*bf[f])[len(*bf[f])-1]
+	*bf[f] = (*bf[f])[:len(*bf[f])-1]
+	*bf[g] = append([]byte{last}, *bf[g]...)
+	_ = fields
+	secret := ref.B32(c.Key)
+	lc := toLib(c.Cfg)
+	labels := []string{fmt.Sprintf("pair=%c%c", "CQPST"[f], "CQPST"[g]), fmt.Sprintf("tag=%v", c.Tag), fmt.Sprintf("order=%d", c.Order)}
+	one := func(in ref.OCRAIn, name string) error {
+		want, werr := ref.OCRA(c.Key, c.Cfg, in)
+		got, gerr := otp.GenerateOCRA(secret, lc, toLibIn(in))
+		if werr != nil {
+			if gerr == nil {
+				return fmt.Errorf("GenerateOCRA of the %s input %+v returned %q; the input is inadmissible", name, in, got)
+			}
+			okk, verr := otp.ValidateOCRA(secret, "000000"[:minI(6, c.Cfg.Digits)]+"0000"[:maxI(0, c.Cfg.Digits-6)], lc, toLibIn(in))
+			if okk || verr == nil {
+				return fmt.Errorf("ValidateOCRA of the %s (inadmissible) input answered (%v, %v)", name, okk, verr)
+			}
+			return nil
+		}
+		if gerr != nil || got != want {
+			return fmt.Errorf("GenerateOCRA of the %s input = %q, %v; RFC value %q", name, got, gerr, want)
+		}
+		if okk, verr := otp.ValidateOCRA(secret, want, lc, toLibIn(in)); !okk || verr != nil {
+			return fmt.Errorf("ValidateOCRA of the %s input rejects its own code %q: (%v, %v)", name, want, okk, verr)
+		}
+		return nil
+	}
+	seq := []struct {
+		in   ref.OCRAIn
+		name string
+	}{{b, "shifted"}, {a, "admissible"}}
+	if c.Order == 1 {
+		seq[0], seq[1] = seq[1], seq[0]
+	}
+	for round := 0; round < 2; round++ {
+		for _, s := range seq {
+			if err := one(s.in, s.name); err != nil {
+				return bad(true, labels, "%v — the other input of the pair has the same bytes with the boundary between %c and %c one position further (admissible %+v)", err, "CQPST"[f], "CQPST"[g], a)
+			}
+		}
+	}
+	return ok(true, labels...)
+}
+
+func minI(a, b int) int {
+	if a < b {
+		return a
+	}
+	return b
+}
+
+var c06Shift = newPart("C06", "shifted-boundaries",
+	"rapid: a usable hand-built suite with at least two fields and an admissible input; the partner input moves the last byte of one selected field to the front of the next (optionally that byte is the next field's tag letter C Q P S T): the same bytes in a row, another input — inadmissible (then refused by generation and validation) or admissible with its own RFC value; both inputs go through GenerateOCRA / ValidateOCRA twice, in both orders, under one secret; every case non-trivial",
+	checkC06Shift)
+
+func TestC06_ShiftedBoundaries(t *testing.T) {
+	c06Shift.rapid(t, ev.Pick(4_000, 80_000), func(t *rapid.T) c06ShiftCase {
+		cfg := drawUsableCfg(t)
+		if n := fieldCount(cfg); n < 2 {
+			cfg.C, cfg.Q = true, true
+			if cfg.QFormat == 0 {
+				cfg.QFormat = 1
+			}
+		}
+		if len(cfg.Raw) > 200 {
+			cfg.Raw = cfg.Raw[:40]
+		}
+		return c06ShiftCase{Cfg: cfg, Key: rapid.SliceOfN(rapid.Byte(), 10, 32).Draw(t, "key"), In: drawAdmissible(t, cfg), Pair: rapid.IntRange(0, 3).Draw(t, "pair"),
+			Tag: rapid.Bool().Draw(t, "tag"), Order: rapid.IntRange(0, 1).Draw(t, "order")}
+	})
+}
